@@ -16,6 +16,26 @@ def _upto(csv, n):
     return tuple(p[:n])
 
 
+FACT_PROPS = ("C06", "C13")
+
+
+def validity_pattern(d):
+    """what C12 says about an object that may be invalid: per level, does GetError() report an error, does
+    Encode(), and is the score the positive zero wherever GetError() does (the value of a valid level's score
+    is not C12's business)"""
+    if "ge" not in d:
+        return ()
+    ge = d.get("ge", "").split(",")
+    enc = d.get("enc", "").split(",")
+    s = d.get("s", "").split(",")
+    pat = []
+    for l in range(len(ge)):
+        bad = ge[l] != "-"
+        pat.append((bad, not (enc[l].endswith("|-")) if l < len(enc) else None,
+                    (s[l] == judge.PZERO) if (bad and l < len(s)) else None))
+    return (tuple(pat),)
+
+
 def project(prop, op, d):
     """projection of a parsed result line onto what property `prop` is about"""
     if "_" in d and d["_"] and d["_"][0] in ("PANIC", "CRASH", "TIMEOUT", "bad-op"):
@@ -52,18 +72,18 @@ def project(prop, op, d):
                 f9, fc9 = f9 + f[6:9], fc9 + fc[6:9]
             if len(emp) > 1 and emp[1] == "false":
                 f9, fc9 = f9 + f[9:14], fc9 + fc[9:14]
-            return (r, tuple(f9), tuple(fc9), d.get("emp"), s)
-        return (r, d.get("v"), d.get("vl"), tuple(f), tuple(fc), s)
+            return (r, tuple(f9), tuple(fc9), d.get("emp"))
+        return (r, d.get("v"), d.get("vl"), tuple(f), tuple(fc))
     if prop == "C10":
         return (r, _idx(d.get("enc"), L), d.get("se"), d.get("rt")) if r == "1" else (r,)
     if prop == "C11":
         return (r, d.get("e"))
     if prop == "C12":
-        return (r, d.get("e")) if r == "1" else (r, d.get("v"), d.get("f"), s, d.get("ge"), d.get("enc"))
+        return (r, d.get("e")) if r == "1" else (r,) + validity_pattern(d)
     if prop == "C13":
         return (r, s)
     if prop == "C14":
-        return (r, _upto(d.get("enc"), L), _upto(s, L), _upto(d.get("sv"), L), d.get("pv"), d.get("vq")) if r == "1" else (r,)
+        return (r, d.get("pv"), d.get("pw"), d.get("vq")) if r == "1" else (r,)
     return tuple(sorted(d.items(), key=lambda kv: kv[0]))
 
 
@@ -115,18 +135,24 @@ def run_decode_stream(prop, name, ops, exhaustive=False, known=None):
         f = op.split(" ")
         g = gkv[i]
         m = core.parse_kv(mo[i])
-        pg = project(prop, f, g)
-        pm = project(prop, f, m)
-        if pg != pm:
-            res.mismatch.append((op, go[i], mo[i]))
         spl = spmap.get(i, "")
         sp = core.parse_kv(spl)
         out = judge.V()
         full = f[0] in ("D3", "D2", "N3", "N2")
-        if f[0] in ("D3", "S3", "N3"):
-            judge.judge_v3(f, g, sp, out, full)
+        jf = judge.judge_v3 if f[0] in ("D3", "S3", "N3") else judge.judge_v2
+        jf(f, g, sp, out, full)
+        if prop in FACT_PROPS:
+            # properties that relate a result to itself (grid and band, neutrality, temporal <= base): the two sides are
+            # compared on those facts, evaluated by the same function, not on the values of the scores (C01-C05's business)
+            outm = judge.V()
+            jf(f, m, sp, outm, full)
+            pg = (g.get("r"), tuple(sorted(out.by.get(prop, []))))
+            pm = (m.get("r"), tuple(sorted(outm.by.get(prop, []))))
         else:
-            judge.judge_v2(f, g, sp, out, full)
+            pg = project(prop, f, g)
+            pm = project(prop, f, m)
+        if pg != pm:
+            res.mismatch.append((op, go[i], mo[i]))
         for p, msgs in out.by.items():
             if p == prop:
                 for msg in msgs:
@@ -140,7 +166,32 @@ def run_decode_stream(prop, name, ops, exhaustive=False, known=None):
             res.distinct.add((f[1] if len(f) > 1 else "", f[2] if len(f) > 2 else ""))
         if len(res.samples) < 3 or (i % max(1, len(ops) // 3) == 0 and len(res.samples) < 6):
             res.samples.append({"op": _readable(op), "impl": go[i][:300], "spec": spl[:200]})
+    if prop == "C09":
+        _same_tokens_same_object(ops, go, gkv, res)
     return res
+
+
+def _same_tokens_same_object(ops, go, gkv, res):
+    """C09, relational half, decided on the implementation's outputs alone: accepted v3 vectors at the same
+    decoder with the same set of Name:Value tokens (any order; optional metrics written as X or omitted)
+    must give the same fields, scores and severities"""
+    groups = {}
+    for i, op in enumerate(ops):
+        f = op.split(" ")
+        g = gkv[i]
+        if f[0] not in ("D3", "N3") or g.get("r") != "1" or len(f) < 3:
+            continue
+        try:
+            toks = core.unhx(f[2]).decode("latin-1").split("/")
+        except Exception:
+            continue
+        key = (f[1], toks[0], frozenset(t for t in toks[1:] if not t.endswith(":X")))
+        obs = (g.get("vl"), g.get("f"), g.get("fc"), g.get("s"), g.get("sv"))
+        first = groups.setdefault(key, (i, obs))
+        if first[1] != obs:
+            res.violations.append((op, "same tokens as %s (other order / X written or omitted) but a different object or score"
+                                   % _readable(ops[first[0]]), go[i], go[first[0]]))
+    res.hist["token-set classes with >= 2 spellings"] = sum(1 for _ in groups)
 
 
 def _readable(op):
